@@ -744,6 +744,7 @@ def run(chk):
     rule_paren(chk, fm, px)
     rule_contexts(chk, fm, px, lx)
     rule_stmt_roundtrip(chk)
+    rule_decl_roundtrip(chk)
     rule_optext(chk, fm, px, lx)
     rule_adj(chk, fm, px, lx)
     rule_literals(chk, fm)
@@ -1150,6 +1151,79 @@ def rule_stmt_roundtrip(chk, prefix="C09.stmt"):
         if bad != "unreadable":
             chk.ob("%s/%s" % (prefix, k), bad is None, bad or "%d tree(s) print and read back unchanged" % len(cases[k]), where(fs), sample={"kind": k, "trees": len(cases[k])})
     chk.floor(prefix.split(".")[0] + ".floor/statement-roundtrips", n, 40, "statement trees printed and read back", where(fs))
+
+
+def rule_decl_roundtrip(chk, prefix="C09.decl"):
+    """Declarations: print o parse is the identity (ppmodel.py) for function parameters (annotations x default value),
+    variable definitions (one or two declarators, annotations, expression / aggregate initialisers), global variables,
+    enums, structs, constant buffers and function definitions (return annotations, parameter lists, prototype / empty /
+    non-empty body). Types, declarators, expressions and annotations are opaque on both sides."""
+    import ppmodel as PP
+    f = chk.facts
+    opt, loc, T, D, E, A = PP.opt, PP.loc, PP.T, PP.D, PP.E, PP.A
+
+    def idecl(d, anns=(), init=None):
+        return I.Enum("InitDeclarator", None, {"declarator": D(d), "location_annotations": list(anns), "init": opt(init)})
+    iexpr = lambda t: I.Enum("Initializer", "Expression", {"0": loc(E(t))})
+    iagg = lambda *xs: I.Enum("Initializer", "Aggregate", {"0": list(xs)})
+    tpl = I.Enum("TemplateParamList", None, {"0": []})
+
+    def stmt(kind, *a):
+        return I.Enum("Statement", None, {"kind": I.Enum("StatementKind", kind, {str(i): v for i, v in enumerate(a)}), "location": I.Opaque("location"), "attributes": []})
+
+    def param(t, d, anns=(), de=None):
+        return I.Enum("FunctionParam", None, {"param_type": T(t), "declarator": D(d), "location_annotations": list(anns), "default_expr": opt(de)})
+    two_params = [param("float", "x", [A("p")], E("d")), param("int", "y")]
+    cases = {
+        "function-parameter": ("format_function_param", "parse_function_param",
+                               [param("float", "x", anns, de) for anns in ([], [A("pos")], [A("a"), A("b")]) for de in (None, E("dflt"))]),
+        "variable-definition": ("format_variable_definition", "parse_vardef", [I.Enum("VarDef", None, {"local_type": T("int"), "defs": ds}) for ds in (
+            [idecl("a")], [idecl("a", init=iexpr("one"))], [idecl("a", init=iagg(iexpr("x"), iagg(iexpr("y"), iexpr("z"))))], [idecl("a"), idecl("b", init=iexpr("two"))],
+            [idecl("a", [A("s")], iexpr("v"))], [idecl("a", init=iexpr("one")), idecl("b"), idecl("c", init=iagg(iexpr("q")))])]),
+        "global-variable": ("format_global_variable", "parse_global_variable", [I.Enum("GlobalVariable", None, {"global_type": T("tex"), "defs": ds, "attributes": []}) for ds in (
+            [idecl("g")], [idecl("g", [A("reg")])], [idecl("g", [A("reg")], iexpr("i")), idecl("h")], [idecl("g"), idecl("h", [A("reg")])])]),
+        "enum": ("format_enum", "parse_enum_definition", [I.Enum("EnumDefinition", None, {"name": loc("Name"), "values": vs}) for vs in (
+            [], [I.Enum("EnumValue", None, {"name": loc("A"), "value": opt(None)})],
+            [I.Enum("EnumValue", None, {"name": loc("A"), "value": opt(loc(E("one")))}), I.Enum("EnumValue", None, {"name": loc("B"), "value": opt(None)}),
+             I.Enum("EnumValue", None, {"name": loc("C"), "value": opt(loc(E("three")))})])]),
+        "struct": ("format_struct", "parse_struct_definition", [I.Enum("StructDefinition", None, {"name": loc("S"), "base_types": bs, "template_params": tpl, "members": ms}) for bs in ([], [T("Base")]) for ms in (
+            [], [I.Enum("StructEntry", "Variable", {"0": I.Enum("StructMember", None, {"ty": T("float"), "defs": [idecl("m", [A("sem")])], "attributes": []})}),
+                 I.Enum("StructEntry", "Variable", {"0": I.Enum("StructMember", None, {"ty": T("int"), "defs": [idecl("a"), idecl("b")], "attributes": []})})])]),
+        "constant-buffer": ("format_constant_buffer", "parse_constant_buffer", [I.Enum("ConstantBuffer", None, {"name": loc("CB"), "location_annotations": anns, "members": [
+            I.Enum("ConstantVariable", None, {"ty": T("float4"), "defs": [idecl("v")]}), I.Enum("ConstantVariable", None, {"ty": T("int"), "defs": [idecl("a"), idecl("b")]})], "attributes": []})
+            for anns in ([], [A("reg")])]),
+        "function": ("format_function", "parse_function_definition", [I.Enum("FunctionDefinition", None, {
+            "name": loc("fn"), "returntype": I.Enum("FunctionReturn", None, {"return_type": T("void"), "location_annotations": ra}), "template_params": tpl, "params": ps, "is_const": False,
+            "is_volatile": False, "body": body, "attributes": []}) for ra in ([], [A("target")]) for ps in ([], two_params[:1], two_params)
+            for body in (opt(None), opt([]), opt([stmt("Expression", E("e")), stmt("Return", opt(loc(E("r"))))]))]),
+    }
+    n = 0
+    for name, (ff, pf, vals) in cases.items():
+        fb, pb = f.fn(ff, PP.FMT), f.fn(pf, PP.PAR)
+        if not fb or not pb:
+            chk.note("%s/%s: %s or %s not found; not decided for this construct" % (prefix, name, ff, pf))
+            continue
+        bad = None
+        unread = None
+        for v in vals:
+            r = PP.roundtrip(f, fb, pb, v)
+            if r[0] == "unreadable":
+                unread = unread or "%s: %s" % (r[1], r[2])
+                continue
+            n += 1
+            if r[0] == "aborts":
+                bad = bad or "%s aborts (%s)" % (r[1], r[2])
+            elif r[0] == "rejected":
+                bad = bad or "a %s is printed as `%s`, which the parser rejects" % (name.replace("-", " "), r[1])
+            elif r[0] == "prefix":
+                bad = bad or "a %s is printed as `%s`; the parser reads only a prefix of it" % (name.replace("-", " "), r[1])
+            elif r[0] == "differs":
+                bad = bad or "a %s is printed as `%s`, which reads back as a different tree" % (name.replace("-", " "), r[1])
+        if unread and not bad:
+            chk.unreadable("%s/%s" % (prefix, name), "%s / %s on the declaration model" % (ff, pf), unread, where(fb))
+            continue
+        chk.ob("%s/%s" % (prefix, name), bad is None, bad or "%d tree(s) print and read back unchanged" % len(vals), where(fb), sample={"construct": name, "trees": len(vals)})
+    chk.floor(prefix.split(".")[0] + ".floor/declaration-roundtrips", n, 40, "declarations printed and read back", FMT)
 
 
 def sim_parse_op(px, toks):
